@@ -25,6 +25,8 @@ import importlib.util
 
 _spec = importlib.util.spec_from_file_location("c10_programs", os.path.join(os.path.dirname(__file__), "data", "c10_programs.py"))
 P = importlib.util.module_from_spec(_spec)
+import sys
+sys.modules[_spec.name] = P     # inspect.getsource of struct classes needs the module to be registered
 _spec.loader.exec_module(P)
 
 PROG = int(os.environ.get("VERIF_C10_PROG", "0"))
@@ -64,8 +66,11 @@ def _dump_checked(defn) -> str:
     if cfg is None:
         return repr(type(defn).__name__)
     for bb in cfg.bbs:
-        ins = [f"{v}" for v in bb.sig.input_row]
-        outs = [[f"{v}" for v in row] for row in bb.sig.output_rows]
+        # rows are compared as sorted lists: the order of variables inside a block signature does vary with the worklist order
+        # (liveness dicts keep insertion order and `eq` compares key sets only), but compile_bb re-orders every row with
+        # sort_vars (name order) before it becomes HUGR ports, so the in-row order is not observable in the output
+        ins = sorted(f"{v}" for v in bb.sig.input_row) if bb is not cfg.entry_bb else [f"{v}" for v in bb.sig.input_row]
+        outs = [sorted(f"{v}" for v in row) for row in bb.sig.output_rows]
         out.append(f"bb{bb.idx} in={ins} out={outs} succ={[s.idx for s in bb.successors]} pred={_show(bb.branch_pred)} stmts={_show(bb.statements)}")
     return "\n".join(out)
 
@@ -86,6 +91,8 @@ def _norm(text: str) -> str:
 
 
 def outcome(defn, ctrl) -> str:
+    import guppylang_internals.experimental as _E
+    _E.EXPERIMENTAL_FEATURES_ENABLED = defn.wrapped.name not in getattr(P, "GATE_OFF", ())
     setorder.set_controller(ctrl)
     try:
         try:
@@ -135,6 +142,35 @@ def h_order(p0: int, p1: int, p2: int, p3: int, p4: int, p5: int, p6: int, p7: i
             c = next((j for j in range(min(len(la), len(lb))) if la[j] != lb[j]), 0)
             LAST_DETAIL = (f"program {_DEF.wrapped.name}: order decisions {sites} change the outcome at line {i}, column {c}: "
                            f"canonical order: ...{la[max(0, c - 150):c + 150]}...  |  this order: ...{lb[max(0, c - 150):c + 150]}...")
+            return False
+        return True
+
+
+def h_order_policy(case: int) -> bool:
+    """
+    pre: 0 <= case < 144
+    post: _
+    """
+    # a family of whole-run schedules: the i-th order decision picks element (a*i*i + b*i + c) mod n.  Unlike h_order it
+    # perturbs *every* decision of the run, not only the first K.
+    global LAST_DETAIL
+    case = realize(case)
+    a, b, c = case // 36, (case // 6) % 6, case % 6
+    state = {"i": 0}
+
+    def choose(n):
+        i = state["i"]
+        state["i"] += 1
+        return (a * i * i + b * i + c) % n
+
+    with NoTracing():
+        ctrl = setorder.Controller(choose, max_picks=10 ** 9, site_filter=_in_group)
+        got = outcome(_DEF, ctrl)
+        if got != BASELINE:
+            x, y = BASELINE.splitlines(), got.splitlines()
+            i = next((j for j in range(min(len(x), len(y))) if x[j] != y[j]), min(len(x), len(y)))
+            LAST_DETAIL = (f"program {_DEF.wrapped.name}: schedule policy (a={a}, b={b}, c={c}) changes the outcome at line {i}: "
+                           f"canonical: {x[i][:300] if i < len(x) else '<end>'} | this order: {y[i][:300] if i < len(y) else '<end>'}")
             return False
         return True
 
